@@ -245,6 +245,9 @@ class Check:
         viol = 0
         replay = None
         os.makedirs(os.path.join(VERIF, "replays"), exist_ok=True)
+        stale = os.path.join(VERIF, "replays", f"{self.id}_{self.tier}_{self.seed}.json")
+        if os.path.exists(stale):
+            os.unlink(stale)
         lines = []
         seen = set()
         for kh in self.known_hits:
